@@ -24,6 +24,15 @@ impl Pool {
                 ed.push(PrivateKey::from_pkcs8(&der, SignatureScheme::EcdsaP256Sha256).expect("parse generated key"));
             }
         }
+        // the harness identifies pool key i with the model key id sha256("pool-key-<i>"); give the real keys the same *relative
+        // order* of key ids (rank of the model ids of keys 0..5: 2,4,3,0,5,1), so that order-dependent behaviour replays faithfully
+        let rank = [2usize, 4, 3, 0, 5, 1];
+        if ed.len() == 6 {
+            let mut sorted: Vec<PrivateKey> = ed;
+            sorted.sort_by(|a, b| a.public().key_id().prefix_full().cmp(&b.public().key_id().prefix_full()));
+            let mut slots: Vec<Option<PrivateKey>> = sorted.into_iter().map(Some).collect();
+            ed = rank.iter().map(|r| slots[*r].take().unwrap()).collect();
+        }
         Pool { ed }
     }
     pub fn public(&self, i: usize) -> PublicKey {
